@@ -54,3 +54,10 @@ check(
     "scikit-learn's generic BaseEstimator protocol is trusted; inner models are parameter-holding look-alikes with polynomial outputs. Estimators that inherit BaseEstimator's protocol unchanged are outside this check. Two interface-level defects (ANMF keyword sets, clone of ClassifierAfterKMeans with a non-default estimator) are listed known findings.",
     "DESIGN.md 3.C01",
 )
+check(
+    "C19",
+    "path-complete bounded symbolic execution (SX): every cell of the training table and of the table to transform is a symbolic choice realised by z3 (all-models enumeration), real pandas frames, independent oracle; concrete-mode replay",
+    "For every pair (training table 2-3 rows x 2 categorical columns, table to transform 1-2 rows) over {two seen categories, missing, unseen}, string and integer categories, and every single/skip_errors/remove option: one indicator named column=value per categorical cell and no other, rank among sorted training categories with single=True, nothing for missing values, numeric column / index / row order / input frame unchanged, an unseen (or removed) category raises, or with skip_errors sets nothing in its block and changes no other cell.",
+    "The values are only used as dictionary keys, so the solver's share is the exhaustive enumeration of tables, not arithmetic. columns= passed explicitly (pandas 3 dtype inference outside). Bounded table sizes.",
+    "DESIGN.md 3.C19",
+)
